@@ -378,6 +378,17 @@ impl<'r, 'b> PeekRr<'r, 'b> {
         ))
     }
 
+    /// Returns the raw value of the resource record's 32-bit TTL
+    /// field, without interpreting it as a TTL. This is meant for
+    /// pseudo-RRs (e.g. OPT) that give the field another meaning.
+    pub fn ttl_field(&self) -> u32 {
+        u32::from_be_bytes(
+            self.reader.octets[self.owner_end + 4..self.owner_end + 8]
+                .try_into()
+                .unwrap(),
+        )
+    }
+
     /// Returns the resource record's RDLENGTH field.
     pub fn rdlength(&self) -> u16 {
         u16::from_be_bytes(
